@@ -56,6 +56,13 @@ def canon_graph(roots, *, uid="drop", skip_attrs=(), registered=None, extra_obje
             return ("cls", x.__module__, x.__qualname__)
         if isinstance(x, (types.FunctionType, types.BuiltinFunctionType, types.MethodType)):
             return _fn_name(x)
+        if isinstance(x, types.CodeType):
+            return ("code", x.co_filename, x.co_name, x.co_firstlineno)
+        if isinstance(x, types.CellType):
+            try:
+                return ("cell", ref(x.cell_contents))
+            except ValueError:
+                return ("cell-empty",)
         if isinstance(x, types.MappingProxyType):
             return ("mproxy",) + tuple(
                 sorted(((ref(k), ref(v)) for k, v in x.items()), key=repr)
